@@ -5,6 +5,7 @@ import (
 	"encoding/csv"
 	"fmt"
 	"io"
+	"verif/stores"
 
 	"github.com/go-logr/logr"
 	"github.com/wrgl/wrgl/pkg/ingest"
@@ -21,6 +22,7 @@ type ingestCfg struct {
 	runSize uint64 // 0 = never spill
 	workers int    // effective worker goroutines (>=1)
 	delim   rune
+	reuse   bool // the sorter sorted another (keyless) table before and was Reset, as doctor / reingest do
 }
 
 func (k *ingestCfg) pkNames() []string {
@@ -116,6 +118,16 @@ func ingestOnce(db objects.Store, k *ingestCfg, text []byte) ([]byte, error) {
 	s, err := sorter.NewSorter(opts...)
 	if err != nil {
 		return nil, err
+	}
+	if k.reuse {
+		pre := []byte("u\nb\na\n")
+		if k.delim != 0 && k.delim != ',' {
+			pre = []byte("u\nb\na\n") // single column: no delimiter involved
+		}
+		if _, err := ingest.IngestTable(stores.NewMemStore(), s, nopCloser{bytes.NewReader(pre)}, nil, logr.Discard()); err != nil {
+			return nil, fmt.Errorf("prelude ingest: %v", err)
+		}
+		s.Reset()
 	}
 	w := k.workers
 	if w < 1 {
